@@ -445,4 +445,88 @@ func TestVX_C03(t *testing.T) {
 			run(fmt.Sprintf("short:%d:z%d", which, z), px, py, b32(e), b32(rv), b32(sv))
 		}
 	}
+	// ---- several arguments of wrong length at once, the lengths compensating each other (x||y or r||s cut at another
+	// place, so that the total is still 64 bytes): rejected by every entry point, the digest-level one and the wrappers
+	{
+		d := modN(bi(vx.Fill("c03pairlen-d", 32)))
+		px, py := sm2ref.Pub(d)
+		id, msg := []byte("1234567812345678"), vx.Fill("c03pairlen-msg", 41)
+		za, _ := sm2ref.ZA(id, px, py)
+		e := sm2ref.E(za[:], msg)
+		sg, err := sm2ref.Sign(stream(b32(modN(bi(vx.Fill("c03pairlen-k", 32))))), d, e[:])
+		if err != nil {
+			panic(err)
+		}
+		xy := append(append([]byte{}, px...), py...)
+		rs := append(append([]byte{}, sg.R...), sg.S...)
+		for _, cut := range []int{0, 1, 16, 31, 33, 48, 63, 64} {
+			for _, which := range []string{"xy", "rs", "both"} {
+				n++
+				if !vx.MineIdx(n) {
+					continue
+				}
+				ax, ay, ar, as := px, py, sg.R, sg.S
+				if which != "rs" {
+					ax, ay = xy[:cut], xy[cut:]
+				}
+				if which != "xy" {
+					ar, as = rs[:cut], rs[cut:]
+				}
+				cs := c03case{fmt.Sprintf("paired-lengths:%s:%d", which, cut), vx.Hex(ax), vx.Hex(ay), vx.Hex(e[:]), vx.Hex(ar), vx.Hex(as)}
+				for _, entry := range []string{"VerifyHashed", "VerifyZa", "Verify"} {
+					r.Eval(1)
+					var got bool
+					kind, pm := vx.Try(func() {
+						switch entry {
+						case "VerifyHashed":
+							got, _ = sm2.VerifyHashed(ax, ay, e[:], ar, as)
+						case "VerifyZa":
+							got, _ = sm2.VerifyZa(ax, ay, za[:], msg, ar, as)
+						case "Verify":
+							got, _ = sm2.Verify(id, ax, ay, msg, ar, as)
+						}
+					})
+					if kind != "" {
+						r.Violation("verify:panic:paired-lengths:"+entry, pm, cs)
+					} else if got {
+						r.Violation("verify:accepts-invalid:paired-lengths:"+entry, fmt.Sprintf("%s accepted a signature whose %s was cut at byte %d instead of 32 (argument lengths %d/%d and %d/%d)", entry, which, cut, len(ax), len(ay), len(ar), len(as)), cs)
+					}
+					r.Shape(fmt.Sprintf("paired-lengths:%s:%d:%s", which, cut, entry))
+				}
+			}
+		}
+	}
+	// ---- public keys with a small discrete logarithm (P = [d]G for d in {1, 2, 3, n-1, n-2}: [t]P runs through the same
+	// multiples as the base-point table) with r in {1, 2, 2^k+1} and s = 2^k, 2^k-1, 2^k+1 at every k: intermediate sums
+	// of the double multiplication coincide with the table entry being added, or cancel. e is solved so that the
+	// signature is valid; the verifier must accept.
+	{
+		ds := []*big.Int{big.NewInt(1), big.NewInt(2), big.NewInt(3), new(big.Int).Sub(bigN, big.NewInt(1)), new(big.Int).Sub(bigN, big.NewInt(2))}
+		step := 5
+		if vx.Thorough() {
+			step = 1
+		}
+		for di, d := range ds {
+			px, py := sm2ref.Pub(d)
+			P := sm2ref.Point{X: bi(px), Y: bi(py)}
+			for k := 0; k < 256; k += step {
+				for _, ds2 := range []int64{0, -1, 1} {
+					for _, rv := range []*big.Int{big.NewInt(1), big.NewInt(2), new(big.Int).Add(new(big.Int).Lsh(bigOne, uint(k)), bigOne)} {
+						sv := modN(new(big.Int).Add(new(big.Int).Lsh(bigOne, uint(k)), big.NewInt(ds2)))
+						rr := modN(rv)
+						tv := modN(new(big.Int).Add(rr, sv))
+						if sv.Sign() == 0 || rr.Sign() == 0 || tv.Sign() == 0 {
+							continue
+						}
+						pt := sm2ref.MulAdd(sv, tv, P)
+						if pt.Inf {
+							continue
+						}
+						e := modN(new(big.Int).Sub(rr, pt.X))
+						run(fmt.Sprintf("small-dlog-key:d%d:s=2^%d%+d:r%d", di, k, ds2, rv.BitLen()), px, py, b32(e), b32(rr), b32(sv))
+					}
+				}
+			}
+		}
+	}
 }
